@@ -33,7 +33,7 @@ def FZ(target, seconds=60, pkg=None):
     return dict(name="fuzz-" + target, fuzz=target, seconds=seconds, tiers=("thorough",), pkg=pkg)
 
 CFG = {
-    "C20": dict(pkg="c20", level="exploration", runs=[R(shards=(16, 32)), R(name="race", race=True, run="TestConcurrent", shards=(2, 4))]),
+    "C20": dict(pkg="c20", level="exploration", runs=[R(shards=(16, 32)), R(name="race", race=True, run="TestConcurrent", shards=(2, 4)), R(name="386", race="386", run="Exhaustive|EveryLevelValue|FirstCall", shards=(2, 4))]),
 }
 try:
     sys.path.insert(0, ROOT)
@@ -67,13 +67,18 @@ def modfile_args():
 
 def build(pid, cfg, race):
     os.makedirs(os.path.join(ROOT, "bin"), exist_ok=True)
-    out = os.path.join(ROOT, "bin", cfg["pkg"] + ALT_TAG + (".race" if race else "") + ".test")
+    # race: False (plain build), True (race detector build) or "386" (the library built for a
+    # 32-bit platform; the binary runs natively on this machine)
+    out = os.path.join(ROOT, "bin", cfg["pkg"] + ALT_TAG + (".386" if race == "386" else ".race" if race else "") + ".test")
     cmd = ["go", "test", "-c", "-tags", "verif", "-vet=off", "-o", out] + modfile_args()
-    if race:
+    benv = ENV
+    if race == "386":
+        benv = dict(ENV, GOARCH="386", CGO_ENABLED="0")
+    elif race:
         cmd.append("-race")
     cmd.append("./checks/" + cfg["pkg"])
     t0 = time.time()
-    p = subprocess.run(cmd, cwd=ROOT, env=ENV, stdout=subprocess.PIPE, stderr=subprocess.STDOUT, text=True)
+    p = subprocess.run(cmd, cwd=ROOT, env=benv, stdout=subprocess.PIPE, stderr=subprocess.STDOUT, text=True)
     if p.returncode != 0:
         log("BUILD-FAILED property=%s (inconclusive)\n%s" % (pid, p.stdout[-4000:]))
         return None
@@ -104,7 +109,7 @@ def main():
     if args and args[0] == "--setup":
         ok = True
         for pid, cfg in sorted(CFG.items()):
-            races = sorted({bool(r.get("race")) for r in cfg["runs"] if "fuzz" not in r})
+            races = sorted({r.get("race") or False for r in cfg["runs"] if "fuzz" not in r}, key=str)
             for race in races:
                 if build(pid, cfg, race) is None:
                     ok = False
@@ -148,6 +153,7 @@ def main():
     shutil.rmtree(os.path.join(ROOT, "checks", cfg["pkg"], "testdata", "rapid"), ignore_errors=True)
 
     bins = {}
+    skipped_runs = []
     procs = []
     inconclusive = []
     violations = []  # (class, replay, msg)
@@ -189,12 +195,31 @@ def main():
             continue
         if "fuzz" in r:
             continue
-        key = bool(r["race"])
+        key = r["race"] or False
         if key not in bins:
             b = build(pid, cfg, key)
             if b is None:
                 return 2
+            if key == "386":
+                # the 32-bit binary needs a kernel that runs 32-bit programs; where it does not,
+                # the run is left out (and the evidence says so) instead of counting as a failure
+                # (only the operating system refusing to start it counts; what the program does is
+                # the business of the run itself)
+                ok386 = True
+                try:
+                    subprocess.run([b, "-test.list", "^$"], stdout=subprocess.DEVNULL, stderr=subprocess.DEVNULL, timeout=60)
+                except OSError:
+                    ok386 = False
+                except subprocess.TimeoutExpired:
+                    pass
+                if not ok386:
+                    log("note: 32-bit binaries do not run here; run '%s' left out" % r["name"])
+                    skipped_runs.append(r["name"])
+                    bins[key] = None
+                    continue
             bins[key] = b
+        if bins[key] is None:
+            continue
         shards = r["shards"][ti]
         for s in range(shards):
             out = os.path.join(work, "%s-%d.json" % (r["name"], s))
@@ -276,12 +301,12 @@ def main():
                 continue
             path = os.path.join(regdir, fn)
             for r in cfg["runs"]:
-                if "fuzz" in r or bool(r["race"]) not in bins:
+                if "fuzz" in r or not bins.get(r["race"] or False):
                     continue
                 e = dict(ENV, VERIF_TIER=tier, VERIF_SEED=str(seed))
                 e.pop("VERIF_OUT", None)
                 e.update(r["env"])
-                p = subprocess.Popen([bins[bool(r["race"])], "-test.run", r["run"], "-test.timeout", "300s", "-replay", path],
+                p = subprocess.Popen([bins[r["race"] or False], "-test.run", r["run"], "-test.timeout", "300s", "-replay", path],
                                      cwd=os.path.join(ROOT, "checks", cfg["pkg"]), env=e, stdout=subprocess.PIPE, stderr=subprocess.STDOUT, text=True)
                 rprocs.append((path, p))
                 break
@@ -412,7 +437,7 @@ def main():
             "processes": len(stats),
             "native_fuzz_execs": fuzz_execs,
             "regression_cases_replayed": regress_run,
-            "notes": notes[:40],
+            "notes": (notes + ["run(s) left out because 32-bit binaries do not execute on this machine: " + ", ".join(skipped_runs)] if skipped_runs else notes)[:40],
         },
         "assumptions": assumptions,
         "wall_s": round(wall, 2),
